@@ -145,7 +145,7 @@ static void episode(bool thorough)
             else if (x < 82) { int nr = ack_nr(k); if (prng_below(25) == 0) nr = prng_below(32768); deliver(f, frame_s(f, nr)); if (prng_below(2)) op_step(); }
             else if (x < 90) { static const int U[] = { 0x43, 0x83, 0x0b, 0x23, 0x07, 0x43, 0x83, 0x13 }; deliver(f, frame_u(f, U[prng_below(8)])); if (prng_below(2)) op_step(); }
             else if (x < 92) { op_stopdt(); if (prng_below(2)) { deliver(f, frame_u(f, 0x23)); op_step(); } }
-            else if (x < 94) { int n = prng_range(1, 10); for (int i = 0; i < n; i++) f[i] = (uint8_t) prng_next(); if (prng_below(2)) f[0] = 0x68; op_rx(f, n); op_step(); }
+            else if (x < 94) { int n = prng_range(1, 10); for (int i = 0; i < n; i++) f[i] = (uint8_t) prng_next(); if (prng_below(2)) f[0] = 0x68; if (prng_below(3) == 0 && n > 1) { static const int C[] = { 0x07, 0x43, 0x0b, 0x01, 0x83, 0x23, 0x00 }; f[0] = 0x68; f[1] = n - 2; if (n > 2) f[2] = C[prng_below(7)]; } op_rx(f, n); op_step(); op_step(); }
             else if (x < 96) { op_peerclose(); op_step(); }
             else if (x < 97) { op_wfail(1); }
             else if (x < 99) op_startdt();
